@@ -501,6 +501,8 @@ func ruleENC(c *Ctx) {
 		return
 	}
 	enc, fl := s.encode, s.flush
+	ruleENCHdr(c, s.ctor)
+	c.Rule("ENC-1", "", 0)
 	// --- ENC-1
 	var writes []*ssa.Call
 	var flushCalls []*ssa.Call
@@ -994,4 +996,55 @@ func emptySlice(v ssa.Value) bool {
 		return ok && h == 0
 	}
 	return false
+}
+
+// ---------- ENC-HDR
+
+// headerWritten: on every return of fn that can report success, a call that
+// writes the container header — (*FileWriter).WriteHeader, or a module helper
+// for which the same holds — has been made on every path and its error is
+// known to be nil there.
+func headerWritten(P *Program, fn *ssa.Function, depth int) (bool, string) {
+	if fn == nil || fn.Blocks == nil || depth > 3 {
+		return false, "no body"
+	}
+	def, poss := successReturns(fn)
+	rets := append(append([]*ssa.Return{}, def...), poss...)
+	if len(rets) == 0 {
+		return false, "no success return"
+	}
+	for _, r := range rets {
+		ok := false
+		for _, cs := range callsIn(fn) {
+			call := cs.Value()
+			if cs.Static == nil || call == nil || !dominatesInstr(call, r) {
+				continue
+			}
+			isHdr := qualNameShort(cs.Static) == "(*FileWriter).WriteHeader"
+			if !isHdr && P.isModuleFunc(cs.Static) && cs.Static != fn && errorResultIndex(cs.Static.Signature) >= 0 {
+				if w, _ := headerWritten(P, cs.Static, depth+1); w {
+					isHdr = true
+				}
+			}
+			if !isHdr {
+				continue
+			}
+			if ev := errValueOfCall(call); ev != nil {
+				if _, isNil := knownNonNil(r.Block(), ev); isNil {
+					ok = true
+				}
+			}
+		}
+		if !ok {
+			return false, "the return at " + P.pos(r.Pos()) + " can report success without the header having been written"
+		}
+	}
+	return true, ""
+}
+
+func ruleENCHdr(c *Ctx, ctor *ssa.Function) {
+	c.Rule("ENC-HDR", "an encoder is handed out only after the container header has been written successfully, so even a file of zero records is a valid container", 1)
+	P := c.P
+	ok, why := headerWritten(P, ctor, 0)
+	c.Check(ok, fnKey(ctor)+"/header-before-return", P.pos(ctor.Pos()), "every success return is dominated by a successful WriteHeader (directly or in a helper)", "the constructor does not write the header on every path to success ("+why+"): an encoder that is flushed without a record leaves an empty file, which is not an Avro container")
 }
